@@ -19,6 +19,11 @@ def build(tier, seed):
     for w, j, flen, rel in ([(1, 0, 3, -1), (3, 2, 6, -2)] if tier == "quick" else [(1, 0, 3, -1), (2, 1, 4, -1), (3, 2, 6, -2), (65535, 1, 4, -1)]):
         I.append(snd("c08_timeout_then_stale_w%d_j%d_f%d_r%d" % (w, j, flen, -rel), w, 2, j, flen, oracle=so, tmo=5, b0=(7, 7),
                      events=[(K_TIMEOUT, None, 0, 6), (K_ACK, rel, 0, 0)]))
+    # a duplicate / stale ACK never aborts, also not when failed receives were already counted in this window position
+    # (r0=9: injected retry count symbolic in 0..5; seeded change C08f-a moved the in-window test into a match guard, so
+    # stale ACKs fell into the catch-all arm and were counted as failed receives)
+    for w, j, flen in ([(2, 1, 4), (65535, 1, 4)] if tier == "quick" else [(1, 0, 3), (2, 1, 4), (3, 2, 6), (65535, 1, 4)]):
+        I.append(snd("c08_stale_after_fails_w%d_j%d_f%d" % (w, j, flen), w, 2, j, flen, oracle=so, kinds=K_ACK, r0=9))
     # ACK-only events with two events (second event sees the state after a duplicate / partial ACK)
     # receiver: ACK cadence from every injected state (j buffered blocks), one arrival
     rshapes = [(1, 0, 0, 2), (1, 0, 2, 1), (2, 0, 2, 2), (2, 1, 0, 2), (2, 1, 2, 1), (3, 2, 2, 2), (3, 1, 0, 0), (3, 0, 4, 2)]
